@@ -9,3 +9,7 @@ import PysamlModel.Props.C06
 #print axioms C06.C06_table_functional
 #print axioms C06.C06_table_size
 #print axioms C06.C06_table_views_agree
+#print axioms C06.correlated_of_loads_verify
+#print axioms C06.shapeOk_of_verify
+#print axioms C06.C06_correlated_factory
+#print axioms C06.C06_shape_factory
